@@ -133,8 +133,20 @@ def write_array(kind, arr, parent, which):
     """Change one element in place, keeping sparse index arrays valid (an out-of-range index in a shared
     matrix must show as a wrong observation, not as a crash inside scipy).  Returns an undo token or None
     when nothing can be written (empty / read-only / no admissible value)."""
-    if arr.size == 0 or not arr.flags.writeable:
+    if arr.size == 0:
         return None
+    if not arr.flags.writeable:
+        # a read-only view whose memory belongs to a writable array can still be written by whoever holds the owner
+        # (as_vector() hands out such views, copy=False constructors keep them): write through, then protect again
+        try:
+            arr.setflags(write=True)
+        except ValueError:
+            return None
+        try:
+            tok = write_array(kind, arr, parent, which)
+        finally:
+            arr.setflags(write=False)
+        return None if tok is None else ("ro",) + tok
     n = arr.size
     pos = {"first": 0, "last": n - 1, "mid": n // 2}[which]
     if kind == "sp.indices":
@@ -159,6 +171,13 @@ def write_array(kind, arr, parent, which):
 
 
 def undo_array(arr, token):
+    if token[0] == "ro":
+        arr.setflags(write=True)
+        try:
+            undo_array(arr, token[1:])
+        finally:
+            arr.setflags(write=False)
+        return
     idx, old = token
     arr[idx] = old
 
@@ -321,7 +340,49 @@ def copy_letters():
         out.append(("copy", "model") + tuple(s))
     for s in LAZY_LETTERS:
         out.append(("copy", "lazy", s))
+    # objects that hold READ-ONLY arrays whose memory a caller can still write: built with copy=False from a protected
+    # view, or rebuilt from another object's as_vector() (which is a read-only view of that object's data)
+    for s in RO_LETTERS:
+        out.append(("copy", "ro", s))
     return out
+
+
+RO_LETTERS = ["PointCloud-ro-view", "TriMesh-ro-view", "Image-ro-view", "PointCloud-from-vector", "TriMesh-from-vector", "MaskedImage-ro-mask"]
+
+
+def build_ro(name, seed):
+    from menpo.image import BooleanImage, Image, MaskedImage
+    from menpo.shape import PointCloud, TriMesh
+
+    r = L.rs(seed, "c06-ro", name)
+    if name in ("PointCloud-ro-view", "TriMesh-ro-view"):
+        owner = L.generic_points(5, 2, seed, ("c06-ro", name))
+        view = owner.view()
+        view.setflags(write=False)
+        obj = PointCloud(view, copy=False) if name.startswith("PointCloud") else TriMesh(view, L.TRILIST5, copy=False)
+        obj._verif_owner = owner  # keeps the owning array alive (an attribute the observation ignores)
+        obj.landmarks["g"] = PointCloud(L.generic_points(3, 2, seed, ("c06-ro-lm", name)))
+        return obj
+    if name == "Image-ro-view":
+        owner = r.rand(2, 4, 5)
+        view = owner.view()
+        view.setflags(write=False)
+        obj = Image(view, copy=False)
+        obj._verif_owner = owner
+        return obj
+    if name == "MaskedImage-ro-mask":
+        owner = r.rand(4, 5) > 0.4
+        owner[0, 0], owner[0, 1] = True, False
+        view = owner.view()
+        view.setflags(write=False)
+        obj = MaskedImage(r.rand(2, 4, 5), mask=BooleanImage(view, copy=False), copy=False)
+        obj._verif_owner = owner
+        return obj
+    src = L.shape(("PointCloud" if name.startswith("PointCloud") else "TriMesh", 2, 1), seed)
+    other = L.bare_shape("PointCloud" if name.startswith("PointCloud") else "TriMesh", 2, seed, ("c06-ro-other", name))
+    obj = src.from_vector(other.as_vector())
+    obj._verif_owner = other
+    return obj
 
 
 def build_transform(spec, seed):
@@ -445,6 +506,8 @@ def build_letter(root, seed):
         return build_model(root[2:], seed)
     if fam == "lazy":
         return build_lazy(root[2], seed)
+    if fam == "ro":
+        return build_ro(root[2], seed)
     raise ValueError(root)
 
 
